@@ -13,7 +13,8 @@ CHECKS = {
     "C01": dict(
         text="Proof: validation walk of the trie model = RFC 6811 over the flat record list, for every well-formed table (all "
              "tables reachable by any add/remove/src-remove history), every query, both families; reasons clause included; IPv4 and IPv6 bit "
-             "code (lrtr_get_bits, the four-word cascade of lrtr_ipv6_get_bits) linked to the abstract bit view by theorem. Tie: model vs trie.c/trie-pfx.c on random histories incl. trie shape.",
+             "code (lrtr_get_bits, the four-word cascade of lrtr_ipv6_get_bits) linked to the abstract bit view by theorem. Tie: model vs trie.c/trie-pfx.c on random histories incl. trie shape (validate_r entered in all three caller states of (reason, reason_len) the API allows); "
+             "a CBMC obligation shows for every argument the trie passes that lrtr_get_bits / lrtr_ipv6_get_bits are the bit-field extraction the model is proved against, without undefined shifts.",
         note=TB + "Single-threaded; no allocation failure (C16, C18).",
         technique="Lean 4 theorems (structural induction over the trie, invariant WF) + differential correspondence of the executable model",
         design="§5 C01"),
@@ -27,7 +28,8 @@ CHECKS = {
         text="Proof: the callback log replays, without any spurious/repeated entry, to exactly the table contents after every history of "
              "add/remove/src_remove, atomic reloads (copy_except_socket + swap + notify_diff: exactly the net difference for the reloading cache is "
              "reported, notifyDiff_net / reload_log_replays / log_replays_reload) and after destruction (free_log).",
-        note=TB + "Rollback of a failed synchronisation is a sequence of add/remove (covered by log_replays); the sync-driven histories themselves are tied by the rtr correspondence (C03).",
+        note=TB + "Rollback of a failed synchronisation is a sequence of add/remove (covered by log_replays); on the implementation the callbacks of both tables are "
+             "replayed into a shadow set inside the protocol harness during thousands of synchronisations and state-machine conversations and compared with the table at every dump.",
         technique="Lean 4 invariant over operation histories (ghost callback log) + differential correspondence",
         design="§5 C09"),
 }
@@ -146,9 +148,13 @@ CHECKS["C04"] = dict(
          "and nothing of the PDU is handed on (bad_length_rejected, receivePdu_ok_checked); every receive consumes input or ends (recv_terminates_consumes), which with "
          "C08's ranking argument bounds every call. NOT proved: absence of invalid memory accesses / assertion failures in the C code - decided by running the real "
          "receive path under ASan+UBSan with assertions on, and again under MemorySanitizer, on every generated stream (hostile field values incl. every 32-bit "
-         "wrap-around candidate of the nested lengths, truncations, oversizes, garbage), each in several segmentations, with the same outcome required. " + RTR_TIE,
+         "wrap-around candidate of the nested lengths, truncations, oversizes, garbage), each in several segmentations (also whole conversations re-chunked), with the same "
+         "outcome required. Additionally three CBMC obligations re-checked on every run tie small C functions to their specification for EVERY input, with full "
+         "pointer/bounds/shift checks on the real receive-buffer size: rtr_pdu_check_size == KnownSize (the right-hand side of the Lean theorem checkSize_spec), "
+         "the in-place byte-order conversions stay inside a size-checked PDU, lrtr_get_bits/lrtr_ipv6_get_bits == bit-field extraction for the trie's calling patterns; "
+         "a CBMC counterexample of the size check is turned into a PDU and replayed on the real receive path. " + RTR_TIE,
     note=RTR_NOTE + " Unaligned accesses through the packed PDU structs are excluded from UBSan for this harness (see DESIGN.md, false alarms).",
-    technique="Lean 4 proofs of chunk-independence and of the size check over the receive-path model + differential correspondence under ASan/UBSan/MSan with wrap-around-aware stream generator",
+    technique="Lean 4 proofs of chunk-independence and of the size check over the receive-path model + CBMC equivalence/memory-safety obligations for the size check, conversions and bit access + differential correspondence under ASan/UBSan/MSan with wrap-around-aware stream generator",
     design="§5 C04")
 CHECKS["C05"] = dict(
     text="Proof: the query the state machine sends is a function of the session part (Reset Query iff a new session is requested, else Serial Query with "
@@ -167,15 +173,21 @@ CHECKS["C07"] = dict(
     note=RTR_NOTE, technique="Lean 4 invariant over all histories of the state-machine model (clock monotone) + differential correspondence with fake clock + trace oracle",
     design="§5 C07")
 CHECKS["C08"] = dict(
-    text="PARTIAL. Proved (progress half): every iteration of the state machine lets the clock advance, or consumes part of the scripted environment, or moves "
-         "down a finite rank of states (no_zero_time_cycle), so at most 4 consecutive iterations take no time and consume nothing (bounded_zero_time_steps, "
-         "steps_bounded); the clock is monotone; error states sleep exactly retry_interval and are not absorbing: they lead to CONNECTING or RESET with a Reset Query "
-         "pending (retry_sleep_advances, error_states_reconnect); the limit retry_interval=0 (only reachable in interval mode ACCEPT_ANY) is stated as a theorem "
-         "(retry_zero_cycle). NOT proved: the convergence clause - the model's environment is a fixed script, not a reactive cache. It is decided by correspondence: "
-         "fault schedules (every transport call site x fault kind, singly and combined, generated reactively from the model's own queries) followed by a correct "
-         "simulated cache; the oracle checks on the real thread that the run ends ESTABLISHED with exactly the cache's records within refresh+expire+k*retry of "
-         "protocol time and that no state cycle repeats without the fake clock advancing. " + RTR_TIE,
-    note=RTR_NOTE, technique="Lean 4 ranking-function proof over the state-machine model (progress) + differential correspondence with reactive simulated cache and fake clock (convergence)",
+    text="Proved on the model, for all socket states, tables, intervals, data sets and segmentations. PROGRESS (RtrProps/C08.lean): every iteration of the state machine "
+         "lets the clock advance, or consumes part of the scripted environment, or moves down a finite rank of states (no_zero_time_cycle), so at most 4 consecutive "
+         "iterations take no time and consume nothing (bounded_zero_time_steps, steps_bounded); the clock is monotone; error states sleep exactly retry_interval and are "
+         "not absorbing (retry_sleep_advances, error_states_reconnect); the limit retry_interval=0 (only in interval mode ACCEPT_ANY) is a theorem (retry_zero_cycle). "
+         "CONVERGENCE (RtrProps/C08b.lean): completeness of rtr_receive_pdu and of rtr_sync for the correct answer to a Reset Query and to a Serial Query "
+         "(sync_complete_reset / _serial / _items: success, the socket's records are exactly the cache's data, others untouched, session/serial/intervals/update time "
+         "as in the End of Data); from ERROR_TRANSPORT, ERROR_FATAL, ERROR_NO_DATA_AVAIL, ERROR_NO_INCR_UPDATE_AVAIL, FAST_RECONNECT, CONNECTING or RESET, once open and "
+         "send succeed and the cache answers the query the socket sends (which query is a function of its state, C05), at most 4 iterations lead to ESTABLISHED with "
+         "exactly the cache's data and at most one retry_interval of protocol time passes (converges_with_reset_query, converges_with_serial_query, ...). "
+         "PARTIAL in one respect: a cache that needs several exchanges (Cache Reset, no-data, session change, version negotiation) is covered exchange by exchange "
+         "(each ends in a start state of the convergence theorem), not by one composed theorem; that composition and the refresh+expire part of the time bound are "
+         "decided on the implementation by correspondence: fault schedules (every transport call site x fault kind, generated reactively from the model's own queries, "
+         "per-connection byte streams) followed by a correct simulated cache; the oracle checks on the real thread that the run ends ESTABLISHED with exactly the "
+         "cache's records within the time bound. " + RTR_TIE,
+    note=RTR_NOTE, technique="Lean 4 ranking-function proof (progress) and completeness/convergence proof (good cache => ESTABLISHED with the cache's data in <= 4 iterations) over the state-machine model + differential correspondence with reactive simulated cache and fake clock",
     design="§5 C08")
 CHECKS["C13"] = dict(
     text="Proof: over any run (any reconnects, any script) the version never rises and stays supported (version_monotone); it changes only in the three "
@@ -195,7 +207,7 @@ CHECKS["C14"] = dict(
          "Which code answers which violation and that the encapsulated bytes are a prefix of the offending PDU is part of the protocol model and checked on the "
          "implementation by correspondence + the sent-PDU oracle (each Error Report matched against the bytes consumed); uninitialised bytes are found by a "
          "MemorySanitizer build of the same harness whose transport formats every byte sent. Second tie: tools/pduconvcheck.py runs the real static conversion "
-         "functions of packets.c against RtrModel.PduConv. " + RTR_TIE,
+         "functions of packets.c against RtrModel.PduConv; a CBMC obligation shows for every size-checked PDU that the conversions stay inside it. " + RTR_TIE,
     note=RTR_NOTE, technique="Lean 4 proofs over the PDU builders, tr_send_all and the byte-order conversions + two differential correspondences (protocol trace, conversion functions) + MSan",
     design="§5 C14")
 
